@@ -648,7 +648,7 @@ def run(report, tier: str, seed: int, log_name: str = "schema_references"):
                         except Timeout:
                             log.fail(f"no-termination:{label}:{direction}:all_refs={all_refs}:{vname}", f"schema generation for {label} did not return within 10 s", case, functions_involved=["RefsExtractor", "_extract_refs"])
                             continue
-                        except BaseException as e:
+                        except Exception as e:
                             log.fail(f"generation-crash:{label}:{direction}:all_refs={all_refs}:{vname}:{type(e).__name__}", f"schema generation for {label} raised {type(e).__name__}: {str(e)[:120]}", case, observed=repr(e), functions_involved=["RefsExtractor", "_extract_refs"])
                             continue
                         if must_refuse and refused is None:
@@ -683,7 +683,7 @@ def _one(report, log, g: Graph, direction, nodes, root_uses, extra, vname, versi
             log.fail(f"no-termination:{what}:{tag}", f"{what} for {g.name} ({direction}, all_refs={all_refs}, {vname}) did not return within 10 s", case, functions_involved=inv)
         except RecursionError:
             log.fail(f"no-termination:{what}:{tag}", f"{what} for {g.name} ({direction}, all_refs={all_refs}, {vname}) exhausted the stack (RecursionError)", case, functions_involved=inv)
-        except BaseException as e:
+        except Exception as e:
             log.fail(f"generation-crash:{what}:{tag}:{type(e).__name__}", f"{what} for {g.name} ({direction}, all_refs={all_refs}, {vname}) raised {type(e).__name__}: {str(e)[:160]}", case, observed=repr(e)[:400], functions_involved=inv)
         return None
 
